@@ -110,6 +110,7 @@ static void v_on_cpu(int sig) { (void)sig; char b[64]; int n = snprintf(b, sizeo
 static void v_budget(double seconds)
 {
     struct itimerval it; memset(&it, 0, sizeof it);
+    {   static double slow = 0; if (slow == 0) { const char* e = getenv("VERIF_SLOW"); slow = e ? atof(e) : 1.0; if (slow < 1.0) slow = 1.0; } seconds *= slow; }   /* dynamic-instrumentation runs (valgrind) */
     if (seconds > 0) { it.it_value.tv_sec = (time_t)seconds; it.it_value.tv_usec = (suseconds_t)((seconds - (double)(time_t)seconds) * 1e6); }
     signal(SIGPROF, v_on_cpu); setitimer(ITIMER_PROF, &it, NULL);
 }
